@@ -70,6 +70,7 @@ struct Plan {
 
 // ---- declaration table (shared by generator, renderer and interpreter) ---------------------------
 struct DeclInfo {
+    bool dtorGate = false;  // object of class Q1X: its destructor applies h to its qubit
     int kind = 0;   // 0 var, 1 array, 2 obj1, 3 obj2
     int size = 1;
     bool alive = true;
@@ -111,6 +112,7 @@ inline std::string preamble(bool trackedFields, bool staticQubit = false) {
     s += "    public function on(qubit p, int g) -> void { if (g == 0) { h(p); } if (g == 1) { x(p); } if (g == 2) { y(p); } if (g == 3) { z(p); } }\n";
     s += "}\n";
     s += "class Q1D extends Q1 {\n    public int tag;\n    public constructor() -> Q1D { super(); this.tag = 1; return this; }\n}\n";
+    s += "class Q1X extends Q1 {\n    public constructor() -> Q1X { super(); return this; }\n    public destructor() -> void { h(this.q); }\n}\n";
     s += "class Q2 {\n";
     s += "    " + t + "public qubit[2] qs;\n";
     s += "    public constructor() -> Q2 = default;\n";
@@ -173,7 +175,7 @@ inline Rendered render(const Plan& p, bool trackedFields = false) {
         switch (o.kind) {
             case DECL: add(std::string(o.tracked ? "@tracked " : "") + "qubit q" + std::to_string(declCounter++) + ";", oi, true); break;
             case DECLARR: add(std::string(o.tracked ? "@tracked " : "") + "qubit[" + std::to_string(o.size) + "] r" + std::to_string(declCounter++) + ";", oi, true); break;
-            case NEWOBJ1: add(std::string("Q1 o") + std::to_string(declCounter) + (o.path % 3 == 1 ? " = new Q1D();" : " = new Q1();"), oi, true); ++declCounter; break;
+            case NEWOBJ1: add(std::string("Q1 o") + std::to_string(declCounter) + (o.path % 4 == 1 ? " = new Q1D();" : o.path % 4 == 3 ? " = new Q1X();" : " = new Q1();"), oi, true); ++declCounter; break;
             case NEWOBJ2: add("Q2 p" + std::to_string(declCounter) + " = new Q2();", oi, true); ++declCounter; break;
             case GATE: add(gateCall(o, decls), oi, true); break;
             case IFGATE: add("if (b" + std::to_string(o.cond) + ") { " + gateCall(o, decls) + " }", oi, true); break;
@@ -530,6 +532,7 @@ struct Interp {
     std::vector<TrackedEvent> tracked;         // tracked outcomes recorded by object deaths (scope exits are added by the caller)
     bool expectError = false;                  // the op just applied must have ended the program with a runtime error
     int orientation = 0;                       // 0: branch one iff r*(w0+w1) < w1 ; 1: mirrored ; -1 unknown
+    bool deferredError = false;                // a destructor of the op just applied raised an error that surfaces at the next boundary
     bool adoptObserved = false;                // a noise-weight branch was selected in the current op
     uint64_t noiseBranches = 0;
     uint64_t ambiguous = 0, uncertainDraws = 0, genuineResets = 0, entangledResets = 0, boundaryDraws = 0, reuseEvents = 0, noncanonicalDraws = 0, zeroProbForced = 0;
@@ -635,6 +638,7 @@ struct Interp {
     void apply(const Op& o, int opIndex, const Observation& ob, bool failed, std::vector<Finding>& out) {
         expectError = false;
         adoptObserved = false;
+        deferredError = false;
         applyInner(o, opIndex, ob, failed, out);
         if (adoptObserved && !failed && ob.state.size() == sv.a.size()) {
             // validity of the observed state itself (finite, unit norm) is checked by the boundary checks;
@@ -665,6 +669,7 @@ struct Interp {
                 d.kind = o.kind == DECL ? 0 : o.kind == DECLARR ? 1 : o.kind == NEWOBJ1 ? 2 : 3;
                 d.size = o.kind == DECLARR ? o.size : (o.kind == NEWOBJ2 ? 2 : 1);
                 d.tracked = o.tracked;
+                d.dtorGate = o.kind == NEWOBJ1 && o.path % 4 == 3;
                 decls.push_back(d);
                 std::vector<int> idx;
                 std::vector<cplx> before = sv.a;
@@ -754,6 +759,13 @@ struct Interp {
                 std::vector<int> targets;
                 if (o.kind == RESET) targets.push_back(resolve(o.h));
                 else targets = declIdx[(size_t)o.h.decl];
+                if (o.kind == DROP && decls[(size_t)o.h.decl].dtorGate) {
+                    // the user destructor runs first and applies h to the field qubit; on a measured qubit it is
+                    // refused: the error is raised at the next statement boundary, after the object has been released
+                    int q = targets[0];
+                    if (measured[(size_t)q]) deferredError = true;
+                    else { sv.h(q); qasm.push_back("h q[" + std::to_string(q) + "];"); }
+                }
                 // enumerate branch assignments; pick the one matching the observed post-state
                 struct Cand { SV sv; std::vector<int> branch; std::vector<double> w1; std::vector<bool> genuine, uncertain; bool tiny = false; };
                 std::vector<Cand> cands;
